@@ -462,6 +462,83 @@ def filters_scenario(ctx):
     return {'sel': rec['sel']}
 
 
+def recvloop_scenario(ctx):
+    """the real UDP receive loop on a scripted socket: whatever arrives before (empty datagrams, garbage, from any
+    sender), every later valid message is still dispatched; the loop ends only at the interface's own stop sentinel"""
+    from sc3.base import responders as rpd, main as _m, _osclib as oli
+    main = _m.main
+    live = main._osc_interface
+    bind_addr = ('127.0.0.1', live.port)
+    foreign = ('127.0.0.1', 9001)
+    valid = oli.OscMessageBuilder('/x')
+    valid.add_arg(7)
+    valid = valid.build().dgram
+    kinds = ['empty-foreign', 'garbage', 'valid', 'truncated-bundle']
+    n = 1 + ctx.choose('n', 3)
+    script = [kinds[ctx.choose(f'd{i}', len(kinds))] for i in range(n)]
+    rec = {'mode': 'rt', 'kind': 'recvloop', 'script': script}
+    payload = {'empty-foreign': b'', 'garbage': b'\xff\xfe\x00abc', 'valid': valid,
+               'truncated-bundle': b'#bundle\x00' + b'\x00' * 6}
+    items = [(payload[k], foreign) for k in script] + [(valid, foreign), (b'', bind_addr)]
+
+    class FakeSocket:
+        def __init__(self):
+            self.i = 0
+
+        def getsockname(self):
+            return bind_addr
+
+        def recvfrom(self, n_):
+            if self.i >= len(items):
+                raise OSError('script exhausted')
+            it = items[self.i]
+            self.i += 1
+            return it
+    for r in list(rpd.OscFunc._all_func_proxies):
+        r.free()
+    fired = []
+    obj = rpd.OscFunc(lambda msg, time, addr, port: fired.append(list(msg)), '/x')
+    clone = object.__new__(type(live))
+    clone.__dict__.update(live.__dict__)
+    sock = FakeSocket()
+    clone._socket = sock
+    import time
+    want = script.count('valid') + 1
+    try:
+        try:
+            clone._udp_run()
+        except (PathAbort, Inconclusive, Violation):
+            raise
+        except BaseException as e:      # noqa
+            raise Violation(f'the receive loop let {type(e).__name__}: {e} escape after datagrams {script}', None,
+                            {'key': 'c18:recvloop:raises', 'replay': rec})
+        # responders are called through SystemClock.sched in RT: dispatch is asynchronous; wait briefly
+        t0 = time.time()
+        while len(fired) < want and time.time() - t0 < 1.0:
+            time.sleep(0.005)
+    finally:
+        obj.free()
+    if sock.i != len(items):
+        raise Violation(f'the receive loop stopped after {sock.i} of {len(items)} datagrams (script {script}): a datagram '
+                        f'other than its own stop sentinel ended it, later messages are never processed', None,
+                        {'key': 'c18:recvloop:stopped', 'replay': rec})
+    if len(fired) != want:
+        raise Violation(f'{len(fired)} of {want} valid messages were dispatched (script {script})', None,
+                        {'key': 'c18:recvloop:lost', 'replay': rec})
+    ctx.obligations += 1
+    ctx.discharged += 1
+    ctx.note('recvloop')
+    return {'script': script}
+
+
+def job_recvloop(j):
+    st = explore(recvloop_scenario, max_paths=5000, timeout_ms=5000, stop_on_violation=True)
+    d = st.as_dict()
+    for v in d['violations']:
+        v['data']['replay']['what'] = v['what']
+    return d
+
+
 def job_filters(j):
     st = explore(filters_scenario, max_paths=5000, timeout_ms=5000, stop_on_violation=True)
     d = st.as_dict()
@@ -590,7 +667,7 @@ def job_bundle(j):
 
 def registry_scenario(ctx, nops):
     from sc3.base import systemactions as sac, model as mdl
-    which = ctx.choose('registry', 3)
+    which = ctx.choose('registry', 5)
     rec = {'mode': 'rt', 'kind': 'registry', 'nops': nops}
     hist = []
 
@@ -611,6 +688,16 @@ def registry_scenario(ctx, nops):
     elif which == 1:
         reg = sac.StartUp
         add, rem, run = reg.add, reg.remove, reg.run
+    elif which in (3, 4):
+        # server actions: registered for one server (3) or for 'all' servers (4), run for that server
+        from sc3.synth import server as srv
+        sv = srv.Server.default
+        key = sv if which == 3 else 'all'
+        reg = sac.ServerBoot
+        reg.remove_all()
+        add = lambda f: reg.add(key, f)          # noqa
+        rem = lambda f: reg.remove(key, f)       # noqa
+        run = lambda: reg.run(sv)                # noqa
     else:
         obj = object.__new__(type('Dep', (), {}))
         add = lambda f: mdl.NotificationCenter.register(obj, 'sig', f, f)      # noqa
@@ -701,6 +788,17 @@ def replay(rec):
         want = ref_match(tokens, key)
         return None if bool(got) == want else f'pattern {"".join(tokens)!r} vs key {key!r}: implementation says ' \
                                               f'{bool(got)}, OSC 1.0 says {want}'
+    if kind == 'recvloop':
+        sc = rec['script']
+        kinds = ['empty-foreign', 'garbage', 'valid', 'truncated-bundle']
+        vals = {'n': len(sc) - 1}
+        for i, k in enumerate(sc):
+            vals[f'd{i}'] = kinds.index(k)
+        try:
+            recvloop_scenario(_CCtx(vals))
+        except Violation as v:
+            return v.what
+        return None
     if kind == 'filters':
         try:
             filters_scenario(_CCtx(dict(rec['sel'])))
@@ -718,6 +816,12 @@ def replay(rec):
         return None
     if kind == 'registry':
         vals = dict(rec.get('values', {}))
+        vals['registry'] = rec.get('which', 0)
+        for i, h in enumerate(rec.get('history', [])):
+            vals[f'op{i}'] = {'add': 0, 'remove': 1, 'run': 2}[h[0]]
+            if len(h) > 1:
+                vals[f'k{i}'] = h[1]
+        rec = dict(rec, nops=len(rec.get('history', [])) or rec['nops'])
         try:
             registry_scenario(_CCtx(vals), rec['nops'])
         except Violation as v:
@@ -787,6 +891,9 @@ def main(tier, seed):
     for r in run_jobs('vf.props.c18', 'job_filters', [dict()], 'rt'):
         chk.add('filters', r)
     chk.require_notes('filters', ['filters'])
+    for r in run_jobs('vf.props.c18', 'job_recvloop', [dict()], 'rt'):
+        chk.add('recvloop', r)
+    chk.require_notes('recvloop', ['recvloop'])
     for r in run_jobs('vf.props.c18', 'job_bundle', [dict()], 'rt'):
         chk.add('hostile_bundle', r)
     for r in run_jobs('vf.props.c18', 'job_registry', [dict(nops=4 if tier == 'quick' else 5)], 'rt'):
@@ -804,7 +911,7 @@ def main(tier, seed):
     chk.require_notes('matching', ['match'])
     chk.require_notes('dispatch', ['dispatch'])
     chk.require_notes('hostile_bundle', ['bundle:next-iteration', 'bundle:rejected'])
-    chk.require_notes('registries', ['registry:0', 'registry:1', 'registry:2'])
+    chk.require_notes('registries', ['registry:0', 'registry:1', 'registry:2', 'registry:3', 'registry:4'])
     chk.bounds = {'pattern_skeletons': f'"/" + up to {2 if tier == "quick" else 3} tokens from {TOKENS}; keys: printable '
                                        'ASCII of any length', 'dispatch_histories': f'{nops} operations over {OPS}, 4 '
                                        'responder variants, 4 message variants, symbolic int argument',
